@@ -19,7 +19,15 @@ shutil.copy(VERIF / "known_findings.json", SNAP / "known_findings.json")
 
 def run(seed):
     wt = f"/tmp/seedrun_{seed}"
-    subprocess.run(["git", "-C", "/repo", "worktree", "add", "-q", "--detach", wt, "HEAD"], check=True, capture_output=True)
+    import time
+    for attempt in range(8):  # concurrent `git worktree add`s contend for the repository lock: retry
+        subprocess.run(["git", "-C", "/repo", "worktree", "remove", "--force", wt], capture_output=True)
+        r0 = subprocess.run(["git", "-C", "/repo", "worktree", "add", "-q", "--detach", wt, "HEAD"], capture_output=True, text=True)
+        if r0.returncode == 0:
+            break
+        time.sleep(1 + attempt)
+    else:
+        return seed, {"error": "git worktree add failed: " + r0.stderr[:200]}
     try:
         r = subprocess.run(["git", "-C", wt, "apply", str(VERIF / SEED_DIR / seed / "patch.diff")], capture_output=True, text=True)
         if r.returncode:
@@ -76,5 +84,8 @@ def report(seed, r):
 with ThreadPoolExecutor(int(os.environ.get("MATRIX_JOBS", "8"))) as ex:
     futs = [ex.submit(run, s) for s in seeds]
     for f in as_completed(futs):
-        report(*f.result())
+        try:
+            report(*f.result())
+        except Exception as exc:  # one broken seed run must not lose the others
+            print("MATRIX-ERROR", repr(exc)[:300], flush=True)
 shutil.rmtree(SNAP, ignore_errors=True)
